@@ -363,6 +363,22 @@ class C12(Check):
                 b = blob_of(net, kind, pid, s, v)
                 all_forms(b, "roundtrip")
                 blobs.append(b)
+        # one field varied at a time, back to back (an address has five: network, type, payment id, spend key, view key): the
+        # same keys with another payment id, the same payment id with another spend / view key, another network, another type -
+        # formatted, and parsed back in every form, in that order
+        for rep in range(3 if not thorough else 30):
+            s0, v0, s1, v1 = (rng.choice(valid) for _ in range(4))
+            p0, p1 = (bytes(rng.getrandbits(8) for _ in range(8)) for _ in range(2))
+            n0 = rng.choice(["main", "test", "stage"])
+            n1 = rng.choice([n for n in ("main", "test", "stage") if n != n0])
+            seq = [(n0, "int", p0, s0, v0), (n0, "int", p1, s0, v0), (n0, "int", p0, s0, v0), (n0, "int", p0, s1, v0),
+                   (n0, "int", p0, s0, v1), (n0, "int", p0, s0, v0), (n1, "int", p0, s0, v0), (n0, "std", p0, s0, v0),
+                   (n0, "sub", p0, s0, v0), (n0, "int", p0, s0, v0), (n0, "int", bytes(8), s0, v0), (n0, "int", p0[:7] + bytes([p0[7] ^ 1]), s0, v0)]
+            for (net, kind, pid, s, v) in seq:
+                t = "int:" + pid.hex() if kind == "int" else kind
+                add("addr_fmt %s %s %s %s" % (net, t, s.hex(), v.hex()), "one-field-varied/format")
+            for (net, kind, pid, s, v) in seq:
+                all_forms(blob_of(net, kind, pid, s, v), "one-field-varied")
         # constructors from secret keys: from_keypair and from_viewpair (the doc-test key pair of src/util/key.rs first)
         add("addr_of_keys main 8163466f1883598e6dd14027b8da727057165da91485834314f5500a65846f09 "
             "77916d0cd56ed1920aef6ca56d8a41bac915b68e4c46a589e0956e27a7b77404", "from-keys")
